@@ -63,6 +63,19 @@ class C17(vlib.Check):
                     f2["fp"]["cnt"] = [[i, v if Fraction(v) >= 1 else "2"] for i, v in f2["fp"]["cnt"]]
             self.count("dbconv")
             yield {"t": "dbconv", "kind": kind, "fps": fps, "to": rng.choice(KINDS)}
+            # views of one count fingerprint through vectors of another dtype, with counts that are ordinary Python ints but do not
+            # fit the count vector dtype (sums over many fingerprints): where representable (float64), the values are kept
+            g = gen_fp(rng, "count", bits, maxn=8)
+            if g["cnt"]:
+                big = rng.choice(["70000", "65536", "131072", "65537", "1000000"])
+                g["cnt"][rng.randrange(len(g["cnt"]))][1] = big
+                self.count("vector-view:big-counts")
+                yield {"t": "vecview", "fp": g}
+            # folding a database into another kind: fold first (collisions merge in the source kind), then convert
+            if bits >= 8 and kind != "count":
+                self.count("dbfold-to-kind")
+                yield {"t": "dbfoldkind", "kind": kind, "bits": bits, "to": rng.choice([k for k in KINDS if k != kind]),
+                       "fps": [gen_fpin(rng, kind, bits, 5, []) for _ in range(2)], "fold": rng.choice([2, 4, 8]) if bits <= 1024 else 2 ** 30}
         from harness import molgen as MG
         refs = MG.all_refs()
         for _ in range(30 if self.tier == "quick" else 500):
@@ -97,6 +110,8 @@ class C17(vlib.Check):
 
     def impl(self, case):
         t = case["t"]
+        if t in ("vecview", "dbfoldkind"):
+            return {"res": {"ok": "see prop"}}
         if t == "fprinter":
             return {"res": attempt(lambda: self._pair(case))}
         if t == "conv":
@@ -117,6 +132,8 @@ class C17(vlib.Check):
 
     def model_ops(self, case):
         t = case["t"]
+        if t in ("vecview", "dbfoldkind"):
+            return [{"op": "fpr.hash", "words": []}]
         if t == "fprinter":
             from harness import molgen as MG
             mol = MG.load_ref(case["ref"])
@@ -133,6 +150,8 @@ class C17(vlib.Check):
 
     def model_answer(self, case, answers):
         t = case["t"]
+        if t in ("vecview", "dbfoldkind"):
+            return {"res": {"ok": "see prop"}}
         if t == "fprinter":
             if "ok" not in answers[0]:
                 return {"res": {"ok": None}} if answers[0].get("err") in ("ValueError", "KeyError") else {"res": answers[0]}
@@ -180,6 +199,47 @@ class C17(vlib.Check):
 
     def prop(self, case):
         t = case["t"]
+        if t == "vecview":
+            import numpy as np
+            spec = case["fp"]
+            f = make_fp(spec)
+            want = {i: float(Fraction(v)) for i, v in spec["cnt"]}
+            try:
+                v = f.to_vector(sparse=True, dtype=np.float64)
+                got = {int(c): float(x) for c, x in zip(v.indices.tolist(), v.data.tolist())}
+            except Exception as e:  # noqa: BLE001
+                return {"key": "vector-view-raises:float:" + type(e).__name__, "what": "to_vector(dtype=float64) raised %r" % e}
+            if got != want:
+                return {"key": "vector-view-values:float", "what": "to_vector(dtype=float64) of a count fingerprint gives %s, counts are %s" % (
+                    sorted(got.items())[:4], sorted(want.items())[:4])}
+            try:
+                bv = f.to_vector(sparse=True, dtype=np.bool_)
+                sup = sorted(int(c) for c, x in zip(bv.indices.tolist(), bv.data.tolist()) if x)
+            except Exception as e:  # noqa: BLE001
+                return {"key": "vector-view-raises:bool:" + type(e).__name__, "what": "to_vector(dtype=bool) raised %r" % e}
+            if sup != sorted(want):
+                return {"key": "vector-view-support:bit", "what": "the boolean vector view has positions %s, non-zero counts are at %s" % (sup[:6], sorted(want)[:6])}
+            # into a float database (cast on add)
+            db = FingerprintDatabase(fp_type=CLS["float"], level=spec["level"])
+            db.add_fingerprints([f])
+            row = dump_db(db)["rows"][0]
+            if {c: float(Fraction(x)) for c, x in row} != want:
+                return {"key": "vector-view-values:float-db", "what": "a count fingerprint added to a float database is stored as %s" % row[:4]}
+            return None
+        if t == "dbfoldkind":
+            db = FingerprintDatabase(fp_type=CLS[case["kind"]], level=5)
+            db.add_fingerprints([make_fpin(f) for f in case["fps"]])
+            b = case["bits"] // case["fold"]
+            try:
+                direct = dump_db(db.fold(b, fp_type=CLS[case["to"]]))
+                twostep = dump_db(db.fold(b).as_type(CLS[case["to"]], copy=True))
+            except Exception as e:  # noqa: BLE001
+                return {"key": "dbfold-kind-raises:" + type(e).__name__, "what": "fold(bits, fp_type) raised %r" % e}
+            if direct["rows"] != twostep["rows"] or direct["kind"] != twostep["kind"]:
+                return {"key": "dbfold-to-kind-differs:%s->%s" % (case["kind"], case["to"]),
+                        "what": "db.fold(%d, fp_type=%s) differs from db.fold(%d).as_type(%s)" % (b, case["to"], b, case["to"]),
+                        "direct": direct["rows"], "twostep": twostep["rows"]}
+            return None
         if t == "fprinter":
             r = self._pair(case)
             if r is None:
@@ -245,6 +305,8 @@ class C17(vlib.Check):
     def nontrivial(self, case, a_impl):
         if case["t"] == "fprinter":
             return vlib.canon(case) if a_impl.get("res", {}).get("ok") else None
+        if case["t"] in ("vecview", "dbfoldkind"):
+            return vlib.canon(case)
         src = case.get("fp") or case.get("a") or (case["fps"][0]["fp"] if case.get("fps") else None)
         if src and src["idx"]:
             return vlib.canon(case)
